@@ -1,7 +1,8 @@
 import Verif.Util.Proto
 import Verif.Model.Cast
 import Verif.Gen.SubtypeRules
-/-! Driver for stream `cast` (C09): op `cast ENGINE VALUE DECLARED-TYPE TYPE`; values `at T | nil | sm V |
+/-! Driver for stream `cast` (C09): op `cast ENGINE VALUE DECLARED-TYPE TYPE`
+    (ENGINE `both`: resource values, one observation per engine); values `at T | nil | sm V |
     rf AUTH V`, types in the Polish notation of stream `types`.  The subtype relation is the
     interpretation of the *regenerated* rules. -/
 open Verif.Proto Verif.Model.Types Verif.Model.Auth Verif.Model.Cast
@@ -134,20 +135,92 @@ def fieldOf (go : String) (key : String) : String :=
   | some f => (f.drop (key.length + 1)).toString
   | none => ""
 
+/-- the types a resource cast's result is asked `isInstance` of (the harness' `rcastProbes`) -/
+def rcastProbes : List Ty :=
+  let r : Ty := .comp "R" .resource ["RI"] false
+  let any : Ty := .prim "AnyResource"
+  [r, .opt r, .opt (.opt r), .inter [{ name := "RI", kind := .resource, confs := [] }], any,
+   .varArr r, .varArr (.opt r), .varArr any, .dict (.prim "String") r]
+
+/-- `cast both VALUE DECL TYPE`: resource values; the observation holds both engines' answers -/
+def judgeRcast (venc tenc go : String) : Verdict :=
+  match parseValue venc, parseType tenc with
+  | some v, some t =>
+    let v' := unboxForCast t v
+    let fuel := fuelFor (dynType v) t + 80
+    let mi := isInstance rules fuel v t
+    let mg := getTypeIsSubtype rules fuel v t
+    let probes (r : DVal) : String := String.join (rcastProbes.map (fun p => bit (isInstance rules (fuelFor (dynType r) p + 80) r p)))
+    let observed (res : Option DVal) : Bool := match res with | some r => !(r == .nilV && isOpt t) | none => false
+    let model (res : Option DVal) (force : Except Unit DVal) : String :=
+      let mc := observed res
+      let (mrty, mri) := match res with
+        | some r => if mc then (tyID (getType r), probes r) else ("-", "-")
+        | none => ("-", "-")
+      let (mf, mfrty, mfri) := match force with
+        | .ok r => ("ok", tyID (getType r), probes r)
+        | .error _ => ("fail", "-", "-")
+      "c=" ++ bit mc ++ " i=" ++ bit mi ++ " g=" ++ bit mg ++ " vty=" ++ tyID (getType v) ++ " rty=" ++ mrty ++
+        " ri=" ++ mri ++ " f=" ++ mf ++ " frty=" ++ mfrty ++ " fri=" ++ mfri
+    let mc := observed (castFailable rules fuel v t)
+    let m := model (castFailable rules fuel v t) (castForce rules fuel v t) ++ " || " ++
+      model (castFailableVM rules fuel v t) (castForceVM rules fuel v t)
+    let tags := ["rcast", "v-" ++ valTag v, "d-" ++ toString v.depth, "t-" ++ headTag (unwrapOptionalType t), "to-" ++ toString (optDepth t),
+      "c-" ++ bit mc, if v' == v then "as-is" else "unboxed"] ++ (if mc then ["!nt"] else [])
+    -- the direct oracles on one engine's observation
+    let half (engine g : String) : Option Verdict :=
+      let tags := tags.take 1 ++ [engine] ++ tags.drop 1
+      let c := fieldOf g "c"; let i := fieldOf g "i"; let gs := fieldOf g "g"
+      let rty := fieldOf g "rty"; let f := fieldOf g "f"; let frty := fieldOf g "frty"
+      let plain := !v.isOptional
+      let clean := noRef (dynType v) && unbox v != .nilV
+      let unwrapRule := "a successful cast yields the original value, optionals unwrapped unless the target is AnyStruct/AnyResource or an optional of them: result type " ++ tyID (specResultType v t)
+      if !(f == "ok" || f == "fail") then some (.violation "go-panic-or-internal" "as! succeeds or raises ForceCastTypeMismatchError" tags)
+      else if f != (if c == "1" then "ok" else "fail") then
+        some (.violation (if unbox v == .nilV && isOpt t && f == "ok" then "nil-cast-to-optional-observed-as-nil" else "force-vs-failable")
+          "as! fails exactly when as? yields nil" tags)
+      else if plain && !(c == i && i == gs) then
+        some (.violation "cast-instance-disagree" "as? succeeds iff isInstance iff getType().isSubtype" tags)
+      else if c == "1" && (frty != rty || fieldOf g "fri" != fieldOf g "ri") then
+        some (.violation "force-vs-failable-result" "as! and as? yield the same value" tags)
+      else if clean && c == "1" && rty != tyID (specResultType v t) then some (.violation "cast-optional-unwrap-rule" unwrapRule tags)
+      else if clean && f == "ok" && frty != tyID (specResultType v t) then some (.violation "cast-optional-unwrap-rule" unwrapRule tags)
+      else none
+    match go.splitOn " || " with
+    | [gi, gv] =>
+      if gi.startsWith "err:user" && gv.startsWith "err:user" then .skip "script-rejected"
+      else if gi.startsWith "err" || gv.startsWith "err" then .violation "go-panic-or-internal" "nine observations per engine" tags
+      else
+        match (half "interp" gi).or (half "vm" gv) with
+        | some verdict => verdict
+        | none =>
+          if gi != gv then
+            .violation (if v == .nilV && t == .prim "AnyResource" && fieldOf gi "c" == "0" && fieldOf gi "f" == "fail" &&
+                            fieldOf gv "c" == "1" && fieldOf gv "f" == "ok" then "nil-cast-to-anyresource-engines-disagree"
+                        else if fieldOf gi "rty" != fieldOf gv "rty" || fieldOf gi "frty" != fieldOf gv "frty" then "engines-disagree-result-type"
+                        else "engines-disagree")
+              ("both engines agree on the cast's outcome and on the run-time type of its result: interp " ++ gi) tags
+          else if go == m then .ok tags else .modelDiff m tags
+    | _ => .violation "go-panic-or-internal" "two engines' observations" tags
+  | _, _ => .skip "bad-encoding"
+
 def judge (op : List String) (go : String) : Verdict :=
   match op with
+  | ["cast", "both", venc, _decl, tenc] => judgeRcast venc tenc go
   | ["cast", engine, venc, _decl, tenc] =>
     match parseValue venc, parseType tenc with
     | some v, some t =>
       let v' := unboxForCast t v
       let fuel := fuelFor (dynType v) t + 40
+      let vm := engine == "vm"
+      let res := if vm then castFailableVM rules fuel v t else castFailable rules fuel v t
       -- what a program observes: `Some(nil)` (a nil value cast to an optional type) is nil
-      let mc := match castFailable rules fuel v t with | some r => !(r == .nilV && isOpt t) | none => false
+      let mc : Bool := match res with | some r => !(r == .nilV && isOpt t) | none => false
       let mi := isInstance rules fuel v t
       let mg := getTypeIsSubtype rules fuel v t
-      let mf := match castForce rules fuel v t with | .ok _ => "ok" | .error _ => "fail"
-      let mrty := match castFailable rules fuel v t with
-        | some r => if isOpt t then "-" else tyID (getType r)
+      let mf := match (if vm then castForceVM rules fuel v t else castForce rules fuel v t) with | .ok _ => "ok" | .error _ => "fail"
+      let mrty := match res with
+        | some r => if mc then tyID (getType r) else "-"
         | none => "-"
       let m := "c=" ++ bit mc ++ " i=" ++ bit mi ++ " g=" ++ bit mg ++ " rty=" ++ mrty ++ " f=" ++ mf
       let tags := ["cast", engine, "v-" ++ valTag v, "t-" ++ headTag t, "c-" ++ bit mc,
@@ -158,7 +231,10 @@ def judge (op : List String) (go : String) : Verdict :=
         let c := fieldOf go "c"; let i := fieldOf go "i"; let g := fieldOf go "g"
         let rty := fieldOf go "rty"; let f := fieldOf go "f"
         let plain := !v.isOptional && !v.isStorageRef
-        if f != (if c == "1" then "ok" else "fail") then
+        -- no conversion applies and the result's `getType` is its own (not a referent's)
+        let clean := noRef (dynType v) && unbox v != .nilV
+        if !(f == "ok" || f == "fail") then .violation "go-panic-or-internal" "as! succeeds or raises ForceCastTypeMismatchError" tags
+        else if f != (if c == "1" then "ok" else "fail") then
           .violation (if unbox v == .nilV && isOpt t && f == "ok" then "nil-cast-to-optional-observed-as-nil" else "force-vs-failable")
             "as! fails exactly when as? yields nil" tags
         else if plain && v.isEphemeralRef && !(c == i && i == g) then
@@ -168,6 +244,9 @@ def judge (op : List String) (go : String) : Verdict :=
         else if plain && !v.isEphemeralRef && c == "1" && !isOpt t && rty != tyID (dynType v) then
           .violation (if !noRef (dynType v) then "cast-narrows-nested-authorizations"
                       else "cast-changes-value") "a successful cast yields the original value" tags
+        else if clean && c == "1" && rty != tyID (specResultType v t) then
+          .violation "cast-optional-unwrap-rule"
+            ("a successful cast yields the original value, optionals unwrapped unless the target is AnyStruct/AnyResource or an optional of them: result type " ++ tyID (specResultType v t)) tags
         else if go == m then .ok tags else .modelDiff m tags
     | _, _ => .skip "bad-encoding"
   | _ => .skip "unknown-op"
